@@ -192,6 +192,19 @@ func cmdCheck(args []string) {
 	}
 	t1 := time.Now()
 	SolveAll(all, scratch, 14, quickCap, fullCap, *tier == "thorough")
+	// second chance for obligations that were not decided within the cap (a loaded machine must not turn into an
+	// alarm): fewer solver processes at a time, a much longer cap. Recorded known findings are not retried.
+	var retry []*Obligation
+	for _, o := range all {
+		if (o.Status == "timeout" || o.Status == "unknown") && !u0noAssume(units, o.Name) {
+			o.Status, o.Solver, o.Output = "", "", ""
+			retry = append(retry, o)
+		}
+	}
+	if len(retry) > 0 {
+		fmt.Printf("govc: %d obligation(s) undecided within %ds, retrying with a %ds cap\n", len(retry), fullCap, fullCap*8)
+		SolveAll(retry, scratch, 5, fullCap, fullCap*8, false)
+	}
 	solveS := time.Since(t1).Seconds()
 
 	isKnown := func(name string) *knownFinding {
@@ -352,6 +365,15 @@ func cmdCheck(args []string) {
 		os.Exit(1)
 	}
 	os.Exit(0)
+}
+
+func u0noAssume(units []*Unit, name string) bool {
+	for _, u := range units {
+		if u.Ctx != nil && u.Ctx.noAssume[name] {
+			return true
+		}
+	}
+	return false
 }
 
 // servesProperty: a clause tagged with property ids ([C26]) yields obligations only for those properties; untagged
